@@ -137,18 +137,31 @@ func cmdCheck(args []string) int {
 	solveAll(L, jobs, timeout, seed, workers)
 	// vacuity: preconditions satisfiable and exit reachable
 	var vac []string
+	feasible := map[string]bool{}
+	vacuous := map[string]bool{}
 	for _, rep := range reps {
 		if rep.Err != "" || rep.Trusted {
 			continue
 		}
-		if len(rep.Obls) == 0 {
+		if len(rep.Obls) == 0 && rep.Path == "" {
 			return broken("function " + rep.Name + " produced no obligations")
 		}
 		v := checkVacuity(L, rep, seed)
 		if v == "vacuous" {
-			return broken("contradictory assumptions in " + rep.Name + " (vacuity canary is unsat)")
+			vacuous[rep.QName] = true
+			if rep.Path == "" {
+				return broken("contradictory assumptions in " + rep.Name + " (vacuity canary is unsat)")
+			}
+			vac = append(vac, rep.Name+"@"+rep.Path+": infeasible path")
+			continue
 		}
-		vac = append(vac, rep.Name+": "+v)
+		feasible[rep.QName] = true
+		vac = append(vac, rep.Name+rep.Path+": "+v)
+	}
+	for q := range vacuous {
+		if !feasible[q] {
+			return broken("contradictory assumptions in " + q + " (no feasible path)")
+		}
 	}
 	violations := 0
 	nObl, nDis := 0, 0
